@@ -305,3 +305,140 @@ func RStrText(c *core.Ctx) {
 		c.Anchor("callers of getRunesAndStart")
 	}
 }
+
+// ---------------------------------------------------------------------------
+// R-LAZYTABLE: the "rune index == byte index" shortcut ends at the first rune
+// that is not one byte wide.
+//
+// stringByteOffsets, runeByteOffsets and the compat byte adapter keep their
+// offset table nil while every rune so far was one byte wide and allocate it
+// at the first rune that is not.  The decision has to look at the width of
+// the CURRENT rune: relying on "the positions will have diverged by the next
+// iteration" misses a multi-byte rune that is the last one.
+// ---------------------------------------------------------------------------
+
+func RLazyTable(c *core.Ctx) {
+	c.Rule("R-LAZYTABLE", "every function of the module that builds a []int offset table lazily (allocates it with make under a `table == nil` test inside its scanning loop) compares the byte width of the current rune (utf8.RuneLen / the size result of utf8.DecodeRune*) with 1 in a branch condition: the table must come into existence at the first rune that is not one byte wide, including when it is the last rune", 3)
+	p := c.P
+	n := 0
+	for _, fn := range p.ModuleFuncs() {
+		// lazily allocated []int: a MakeSlice of []int in a block dominated by `x == nil` on a []int
+		lazy := false
+		for _, b := range fn.Blocks {
+			for _, ins := range b.Instrs {
+				ms, ok := ins.(*ssa.MakeSlice)
+				if !ok {
+					continue
+				}
+				st, ok := ms.Type().Underlying().(*types.Slice)
+				if !ok {
+					continue
+				}
+				if bt, ok := st.Elem().Underlying().(*types.Basic); !ok || bt.Kind() != types.Int {
+					continue
+				}
+				for _, f := range core.FactsAtBlock(b) {
+					bin, ok := f.Cond.(*ssa.BinOp)
+					if !ok || bin.Op != token.EQL || !f.Val {
+						continue
+					}
+					if core.IsNilConst(bin.Y) || core.IsNilConst(bin.X) {
+						v := bin.X
+						if core.IsNilConst(bin.X) {
+							v = bin.Y
+						}
+						if s2, ok := v.Type().Underlying().(*types.Slice); ok {
+							if bt, ok := s2.Elem().Underlying().(*types.Basic); ok && bt.Kind() == types.Int {
+								// and the allocation sits in a loop
+								if onCycle(b) {
+									lazy = true
+								}
+							}
+						}
+					}
+				}
+			}
+		}
+		if !lazy {
+			continue
+		}
+		name := core.SSAName(fn)
+		n++
+		c.Visit(name)
+		// width values
+		width := map[ssa.Value]bool{}
+		for _, b := range fn.Blocks {
+			for _, ins := range b.Instrs {
+				switch x := ins.(type) {
+				case *ssa.Call:
+					if cal := x.Call.StaticCallee(); cal != nil && cal.Pkg != nil && cal.Pkg.Pkg.Path() == "unicode/utf8" && cal.Name() == "RuneLen" {
+						width[x] = true
+					}
+				case *ssa.Extract:
+					if call, ok := x.Tuple.(*ssa.Call); ok && x.Index == 1 {
+						if cal := call.Call.StaticCallee(); cal != nil && cal.Pkg != nil && cal.Pkg.Pkg.Path() == "unicode/utf8" && strings.HasPrefix(cal.Name(), "Decode") {
+							width[x] = true
+						}
+					}
+				}
+			}
+		}
+		for changed := true; changed; {
+			changed = false
+			for _, b := range fn.Blocks {
+				for _, ins := range b.Instrs {
+					if phi, ok := ins.(*ssa.Phi); ok && !width[phi] {
+						for _, e := range phi.Edges {
+							if width[e] {
+								width[phi] = true
+								changed = true
+							}
+						}
+					}
+				}
+			}
+		}
+		compared := false
+		for _, b := range fn.Blocks {
+			for _, ins := range b.Instrs {
+				bin, ok := ins.(*ssa.BinOp)
+				if !ok || (bin.Op != token.NEQ && bin.Op != token.EQL && bin.Op != token.GTR && bin.Op != token.LSS && bin.Op != token.GEQ && bin.Op != token.LEQ) {
+					continue
+				}
+				k, isC := core.IntConst(bin.Y)
+				if !isC || !width[bin.X] || (k != 1 && k != 2) {
+					continue
+				}
+				for _, r := range core.Referrers(bin) {
+					switch r.(type) {
+					case *ssa.If, *ssa.Phi, *ssa.BinOp:
+						compared = true
+					}
+				}
+			}
+		}
+		c.Check(compared, name+" / the lazy offset table is created when the current rune is not one byte wide", fn.Pos(),
+			"%d width value(s) found, none of them is compared with 1 in a branch: a multi-byte rune that is the last rune of the input never creates the table and rune indexes are returned as byte indexes", len(width))
+	}
+	if n == 0 {
+		c.Anchor("functions that build a []int offset table lazily")
+	}
+}
+
+func onCycle(b *ssa.BasicBlock) bool {
+	seen := map[*ssa.BasicBlock]bool{}
+	work := append([]*ssa.BasicBlock(nil), b.Succs...)
+	for len(work) > 0 {
+		x := work[0]
+		work = work[1:]
+		if seen[x] {
+			continue
+		}
+		seen[x] = true
+		if x == b {
+			return true
+		}
+		work = append(work, x.Succs...)
+	}
+	return false
+}
